@@ -96,9 +96,11 @@ void f_repeat_string (void) {
   size_t repeat, len;
   char *ret, *p;
   size_t i;
+  int64_t count;
 
-  repeat = (sp--)->u.number;
-  if (repeat <= 0)
+  count = (sp--)->u.number;
+  repeat = (size_t)count;
+  if (count <= 0)
     {
       free_string_svalue (sp);
       sp->type = T_STRING;
@@ -109,7 +111,10 @@ void f_repeat_string (void) {
     {
       str = sp->u.string;
       len = SVALUE_STRLEN (sp);
-      if (len * repeat > (size_t)CONFIG_INT (__MAX_STRING_LENGTH__))
+      if (len == 0)
+        return;			/* "" repeated is "" */
+      /* len * repeat must not wrap around */
+      if (repeat > (size_t)CONFIG_INT (__MAX_STRING_LENGTH__) / len)
         error ("repeat_string: String too large.\n");
 //      repeat = CONFIG_INT(__MAX_STRING_LENGTH__) / len;
       p = ret = new_string (len * repeat, "f_repeat_string");
